@@ -65,6 +65,23 @@ Oracles
       A block entry that names a DEFINED option is outside the statement: such files are skipped in (5).
   (6) routes: oracles (1) and (2) with the rename files delivered by the route; the reference is the table that the listing
       gives (a route that drops, reorders or re-splits the files makes an old name differ from its replacement).
+  (7) LIVE instance (single-file tables): histories  [load A; READ everything; load B]  on ONE Kconfig instance, where
+        A  = the empty file, every 1-line file (default flag), every block with one entry loaded with load_deprecated=True,
+        READ = str_value of every defined option + eval_string / str_value of every old and undefined replacement name of the table
+               (thorough, B = a block alone: also `write` = write_config(write_deprecated=True), `eval` = the names alone),
+        B  = a block with one entry, a line alone, a tool-written file (2 configurations) after every A; a block before / after
+             a line after the empty A (thorough: after every 1-line A; + never-closed block, block-line-block, the other 4
+             tool-written configurations after the empty A)    x load_deprecated in {True, False} x replace in {True, False};
+        quick: 1-line tables in the trees plain / mention / mention_both; thorough: + the single-position mention trees and
+        mention_new, + every 2-line table in the mention tree with A in {empty, 1 line}, B = a block alone, load_deprecated=True.
+        Not generated (findings/C11-notset-entry-stale-cache): B requested with an `is not set` entry for a number / string alias
+        that the tree mentions.
+      (7a) the READ is not observable: values, user values, re-written sdkconfig, missing_syms, and the value / eval_string of
+           every old and undefined replacement name equal those of a twin instance given the same two loads and no READ between;
+      (7b) after B with load_deprecated=True the clauses of (5) hold on the live instance: determinate block entries evaluate to
+           what B wrote, and (A loaded without a requested block) the mention tree's own expressions take the value <rel> has for
+           B's entries.  No demand for an entry whose name A already loaded from a requested block with a replacement that is
+           not defined (its type was fixed by A's value).
 """
 
 from __future__ import annotations
@@ -101,7 +118,14 @@ RULE = (
     "plain tree x 1-line sdkconfig files (thorough: <=2 lines where the listing has <=2 distinct files in a row); (b) trees "
     "mention_new / mention_both in which the REPLACEMENT name of a mapping to an undefined option is mentioned by leftover "
     "expressions, for every table with such a mapping, x files / composed files as for the mention tree, the alias written with "
-    "values of every type; composed shapes B and U (a block and nothing else)."
+    "values of every type; composed shapes B and U (a block and nothing else). (c) LIVE instances -- per tree x single-file table "
+    "every history [load A; read all values and names; load B(load_deprecated True/False, replace True/False)] with A in {empty, "
+    "1 line, requested 1-entry block} and B in {block, block+line, line+block, tool-written file, line} compared with a twin instance "
+    "given the same loads without the read, + the requested-block clauses on the live instance; quick: 1-line tables, trees plain / "
+    "mention / mention_both (block+line shapes after the empty A only); thorough: + 2-line tables in the mention tree (B = block alone, "
+    "requested), the single-position mention trees, never-closed and double blocks, reads through write_config / eval_string alone. "
+    "Histories whose requested block has an `is not set` entry for a number / string alias mentioned by the tree are skipped "
+    "(counter live_skipped_notset_nonbool_entry; findings/C11-notset-entry-stale-cache)."
 )
 ASSUMPTIONS = [
     "a mapping to an option that is not defined carries no obligation for ORDINARY lines except not raising and not disturbing other "
@@ -118,6 +142,8 @@ ASSUMPTIONS = [
     "symbol (evaluates to n / its own name); only the equivalence of the two spellings is demanded there",
     "rename files are listed by absolute paths that differ only in the directory name chosen by the case (aa < mm < zz); relative "
     "paths, symlinks and case-insensitive file systems are not explored",
+    "live instances: reading values (str_value, eval_string, write_config) is not an operation of the configuration -- an instance "
+    "that was read between two loads must end in the same observable state as one that was not",
     "a never-closed deprecated block extends to the end of the file; a block entry that names a defined option is outside the "
     "statement when the block is requested (skipped there, counted in `skipped`)",
 ]
@@ -447,6 +473,7 @@ def items(tier: str, seed: int):
     for (kind, n, route), ts in work.items():
         per = 6 if route == "list" else 24 if route.startswith("env:") else 12
         out += [{"tree": kind, "tables": ts[i:i + per], "maxlen": n, "tier": tier, "route": route} for i in range(0, len(ts), per)]
+    out += live_items(tier)
     return out
 
 
@@ -691,7 +718,7 @@ def value_type(val: Optional[str]) -> str:
     return "string"
 
 
-def alias_clauses(k2, written, m, olds, kind, label, case, r: common.Result, extra: dict) -> None:
+def alias_clauses(k2, written, m, olds, kind, label, case, r: common.Result, extra: dict, earlier: Tuple[str, ...] = ()) -> None:
     """load_deprecated=True: every block entry evaluates to what was written and is not reported unknown"""
     for name, val in written.items():
         # is the alias also a node-less symbol of the tree because an expression of the tree mentions it?
@@ -717,7 +744,8 @@ def alias_clauses(k2, written, m, olds, kind, label, case, r: common.Result, ext
         ev = k2.eval_string(name)
         if ev != want:
             r.violation({"kind": "alias_evaluates_differently", "tree": kind, "alias": how, "type": "bool", **repl, "written": "y" if want else "n", **extra}, f"{label} load_deprecated: alias {name} written as {'y' if want else 'n'} evaluates to {ev}", case)
-    lost = [n for n, _v in k2.missing_syms if n in written]
+    # (`earlier`: names that an ordinary line of an earlier load on the same instance assigned -- listed since then)
+    lost = [n for n, _v in k2.missing_syms if n in written and n not in earlier]
     if lost:
         hows = sorted({"mentioned_in_kconfig" if n in olds else "not_in_kconfig" for n in lost})
         r.violation({"kind": "requested_block_entry_reported_unknown", "tree": kind, "alias": "+".join(hows), **extra}, f"{label} load_deprecated: missing_syms lists the block entries {lost}", case)
@@ -1033,7 +1061,255 @@ def composed_level(tier: str, kind: str, tab, layout: str) -> int:
     return 2 if kind == "plain" or kind in TREE_KINDS_NEW else 1
 
 
+# ---- live instances ----------------------------------------------------------------------------------------------------
+# history on ONE instance: load A (replace=True) ; READ ; load B (replace r, load_deprecated f) ; observe
+# twin:                    load A (replace=True) ;        load B (replace r, load_deprecated f) ; observe
+READ_MODES_QUICK = ["values"]
+READ_MODES_THOROUGH = ["values", "write", "eval"]
+
+
+def alias_names(tab: Tuple[int, ...]) -> List[str]:
+    """every name of the table that is not a defined option: old names and undefined replacement names"""
+    out: List[str] = []
+    for i in tab:
+        old, new, _inv = _split_line(ALPHABET[i])
+        for n in (old, new):
+            if n not in TYPES and n not in out:
+                out.append(n)
+    return out
+
+
+def live_level(tier: str, kind: str, tab: Tuple[int, ...]) -> int:
+    """0: not explored; 1: (2-line tables, mention tree) B = a block alone; 2: + line alone, tool-written file, block before /
+    after a line; 3: + never-closed block, two blocks, every tool-written configuration, reads through write_config / names"""
+    if kind == "plain":
+        ok = True
+    elif kind in TREE_KINDS_NEW:
+        ok = bool(undefined_news(tab)) and (kind == "mention_both" or tier != "quick")
+    elif kind == "mention":
+        ok = True
+    else:
+        ok = tier != "quick" and len(tab) == 1
+    if not ok:
+        return 0
+    if len(tab) == 1:
+        return 2 if tier == "quick" else 3
+    return 1 if tier != "quick" and kind == "mention" else 0
+
+
+def live_firsts(la: List[str], requested: bool = True) -> Iterator[Tuple[list, bool]]:
+    """(tokens of A, load_deprecated of A)"""
+    yield [], False
+    for t in la:
+        yield [["L", t]], False
+    if requested:
+        for e in la:
+            yield [["B", [e]]], True
+
+
+def live_seconds(la: List[str], part: str) -> Iterator[list]:
+    L = lambda x: ["L", x]  # noqa: E731
+    B = lambda *x: ["B", list(x)]  # noqa: E731
+    if part == "block":
+        for e in la:
+            yield [B(e)]
+    elif part == "simple":
+        for t in la:
+            yield [L(t)]
+        for cfg in (BLOCK_CFGS[0], BLOCK_CFGS[3]):
+            yield [["W", cfg]]
+    elif part == "mixed":
+        for e in la:
+            for t in la:
+                yield [B(e), L(t)]
+                yield [L(t), B(e)]
+    elif part == "more":
+        for cfg in BLOCK_CFGS[1:3] + BLOCK_CFGS[4:]:
+            yield [["W", cfg]]
+        for e in la:
+            yield [["U", [e]]]
+            for t in la:
+                yield [L(t), ["U", [e]]]
+                yield [B(e), L(t), B(e)]
+
+
+ALL4 = [(True, True), (True, False), (False, True), (False, False)]  # (load_deprecated, replace) of the second load
+
+
+def live_histories(tier: str, kind: str, tab: Tuple[int, ...], la: List[str]) -> Iterator[tuple]:
+    """(A, B, load_deprecated, replace, read)"""
+    level = live_level(tier, kind, tab)
+    if level == 1:
+        # 2-line tables (thorough): A without a requested block, B = a block alone
+        for first in live_firsts(la, requested=False):
+            for second in live_seconds(la, "block"):
+                for flag, replace in ALL4[:2]:
+                    yield first, second, flag, replace, "values"
+        return
+    for first in live_firsts(la):
+        for part in ("block", "simple"):
+            for second in live_seconds(la, part):
+                for flag, replace in ALL4:
+                    for read in (READ_MODES_THOROUGH if level >= 3 and part == "block" else READ_MODES_QUICK):
+                        yield first, second, flag, replace, read
+    # a block before / after a line: after the empty file (quick) / the empty file and every 1-line file (thorough);
+    # never-closed block, two blocks, the other tool-written configurations (thorough): after the empty file
+    for part in (("mixed",) if level < 3 else ("mixed", "more")):
+        for first in ([([], False)] if level < 3 or part == "more" else list(live_firsts(la, requested=False))):
+            for second in live_seconds(la, part):
+                for flag, replace in ALL4:
+                    yield first, second, flag, replace, "values"
+
+
+def live_items(tier: str) -> list:
+    n = len(ALPHABET)
+    tabs: List[Tuple[int, ...]] = [(i,) for i in range(n)]
+    if tier != "quick":
+        tabs += list(itertools.permutations(range(n), 2))
+    work: Dict[str, list] = {}
+    for tab in tabs:
+        for kind in TREE_KINDS_QUICK + TREE_KINDS_SINGLE + TREE_KINDS_NEW:
+            if live_level(tier, kind, tab) and (kind == "plain" or tree_files(kind, tab) is not None):
+                work.setdefault(kind, []).append((tab, "mm"))
+    out = []
+    for kind, ts in work.items():
+        one = [t for t in ts if len(t[0]) == 1]
+        two = [t for t in ts if len(t[0]) > 1]
+        out += [{"tree": kind, "tables": [t], "tier": tier, "live": True} for t in one]
+        out += [{"tree": kind, "tables": two[i:i + 4], "tier": tier, "live": True} for i in range(0, len(two), 4)]
+    return out
+
+
+def live_read(inst, names: List[str], mode: str) -> None:
+    k = inst.k
+    if mode == "write":
+        inst.config_text(write_deprecated=True)
+        return
+    if mode == "values":
+        inst.values()
+    for n in names:
+        k.eval_string(n)
+        s = k.syms.get(n)
+        if s is not None:
+            s.str_value
+
+
+def live_observe(inst, names: List[str]) -> dict:
+    k = inst.k
+    alias = {}
+    for n in names:
+        s = k.syms.get(n)
+        alias[n] = (s.str_value if s is not None else None, k.eval_string(n))
+    return {
+        "alias": alias,
+        "values": inst.values(),
+        "user": {s.name: s._user_value for s in k.unique_defined_syms},
+        "config": inst.config_text(),
+        "missing": list(k.missing_syms),
+    }
+
+
+def check_live(files, kind, tab, layout, first, second, flag: bool, replace: bool, read: str, r: common.Result,
+               memo: Optional[dict] = None) -> None:
+    m = mapping_of(effective(tab, layout))
+    a_tokens, a_flag = first
+    memo = memo if memo is not None else {}
+    names = alias_names(tab)
+    olds = mentioned_olds(tab) if mentions_olds(kind) else []
+    case = {"files": files, "tree": kind, "table": list(tab), "layout": layout,
+            "live": {"first": [a_tokens, a_flag], "second": second, "load_deprecated": flag, "replace": replace, "read": read}}
+    label = (f"[tree={kind} table={[ALPHABET[i] for i in tab]} one instance: load {a_tokens}{' load_deprecated=True' if a_flag else ''}; "
+             f"read ({read}); load {second} load_deprecated={flag} replace={replace}]")
+    a_shape = "empty" if not a_tokens else shape_of(a_tokens) + ("(requested)" if a_flag else "")
+    extra = {"shape": shape_of(second), "live": f"first={a_shape};read={read};replace={replace}"}
+    r.evals += 1
+    try:
+        a_text = render_tokens(files, tab, layout, a_tokens, memo)
+        b_text = render_tokens(files, tab, layout, second, memo)
+    except Exception as e:  # noqa: BLE001
+        r.violation({"kind": "write_raises", "tree": kind, "exc": type(e).__name__, "site": site_of(e)}, f"{label} writing raised {type(e).__name__}: {e}", case)
+        return
+    uses = BEGIN in b_text or BEGIN in a_text or any(parse_line(t[1])[0] not in TYPES for t in list(a_tokens) + list(second) if t[0] == "L")
+    if not uses:
+        r.skipped += 1  # no deprecated name anywhere in the history
+        return
+    if flag and olds and any(v is None and n in olds and OLD_TYPE[n] not in ("bool", "any")
+                             for n, v in (parse_line(l) for l in block_lines(b_text) if re.match(r"CONFIG_[^=]+=|# CONFIG_[^ ]+ is not set", l))):
+        # findings/C11-notset-entry-stale-cache: a requested `is not set` entry for a number / string alias that the tree mentions
+        # changes the symbol's type and menu node but writes no value, and nothing invalidates the values cached before the load
+        r.skipped += 1
+        r.count("live_skipped_notset_nonbool_entry")
+        return
+    r.outcome((kind, tab, "live", repr(case["live"])))
+    try:
+        live = make_inst(files, tab, layout)
+        live.load_text(a_text, load_deprecated=a_flag)
+        live_read(live, names, read)
+        live.load_text(b_text, replace=replace, load_deprecated=flag)
+        got = live_observe(live, names)
+        twin = make_inst(files, tab, layout)
+        twin.load_text(a_text, load_deprecated=a_flag)
+        twin.load_text(b_text, replace=replace, load_deprecated=flag)
+        ref = live_observe(twin, names)
+    except Exception as e:  # noqa: BLE001
+        r.violation({"kind": "block_load_raises", "tree": kind, "exc": type(e).__name__, "site": site_of(e), "requested": flag, **extra}, f"{label} raised {type(e).__name__}: {e}", case)
+        return
+    for key in ("alias", "values", "user", "config", "missing"):
+        if got[key] != ref[key]:
+            if key in ("alias", "values", "user"):
+                d = {n: (got[key][n], ref[key][n]) for n in got[key] if got[key][n] != ref[key][n]}
+            else:
+                d = f"{got[key]!r} vs {ref[key]!r}"
+            r.violation({"kind": "read_before_load_changes_result", "tree": kind, "what": key, "requested": flag, **extra},
+                        f"{label} differs in {key} from a twin instance given the same loads without the read (got, twin): {d}", case)
+            break
+    if not flag or BEGIN not in b_text:
+        return
+    # (7b) the requested-block clauses on the live instance
+    entries = [parse_line(l) for l in block_lines(b_text) if re.match(r"CONFIG_[^=]+=|# CONFIG_[^ ]+ is not set", l)]
+    if any(n in TYPES for n, _v in entries):
+        r.skipped += 1  # a block entry that names a defined option is outside the statement
+        return
+    vals: Dict[str, set] = {}
+    for n, v in entries:
+        vals.setdefault(n, set()).add(v)
+    outside = {parse_line(t[1])[0] for t in second if t[0] == "L"}
+    written = {n: next(iter(v)) for n, v in vals.items() if len(v) == 1 and n not in outside}
+    a_entries = block_entries(block_lines(a_text)) if a_flag else {}
+    # an entry that A already loaded from a requested block and whose replacement is not defined got its type from A's value
+    demanded = {n: v for n, v in written.items() if not (n in a_entries and m.get(n, (None, False))[0] not in TYPES)}
+    earlier = () if replace else tuple(parse_line(t[1])[0] for t in a_tokens if t[0] == "L")
+    alias_clauses(live.k, demanded, m, olds, kind, label, case, r, extra, earlier)
+    if not a_entries and all(n in written for n in vals):
+        tree_expression_clause(got["values"], written, olds, kind, label, case, r, extra)
+
+
+def run_live_item(item) -> common.Result:
+    r = common.Result()
+    kind = item["tree"]
+    tier = item.get("tier", "quick")
+    for tab, layout in item["tables"]:
+        tab = tuple(tab)
+        files = tree_files(kind, tab)
+        if files is None:
+            continue
+        r.programs += 1
+        la = line_alphabet(tab)
+        memo: dict = {}
+        n = 0
+        for first, second, flag, replace, read in live_histories(tier, kind, tab, la):
+            check_live(files, kind, tab, layout, first, second, flag, replace, read, r, memo)
+            n += 1
+        r.count("live_histories", n)
+        if r.sample is None:
+            r.sample = {"tree": kind, "kconfig": files["Kconfig"], "rename_file": [ALPHABET[i] for i in tab],
+                        "live_histories_per_table": n, "example_history": ["load " + repr(la[:1]), "read all", "load block " + repr(la[:1]) + " load_deprecated=True"]}
+    return r
+
+
 def run_item(item) -> common.Result:
+    if item.get("live"):
+        return run_live_item(item)
     r = common.Result()
     kind = item["tree"]
     route = item.get("route", "list")
@@ -1078,7 +1354,10 @@ def replay(case) -> List[dict]:
     kind = case.get("tree", "plain")
     layout = case["layout"] if "layout" in case else ("aa-zz" if case.get("split") else "mm")  # (`split`: replay files of older versions)
     tab = tuple(case["table"])
-    if "lines" in case:
+    if "live" in case:
+        lv = case["live"]
+        check_live(case["files"], kind, tab, layout, (lv["first"][0], lv["first"][1]), lv["second"], lv["load_deprecated"], lv["replace"], lv["read"], r)
+    elif "lines" in case:
         check_file(case["files"], kind, tab, layout, case["lines"], r, None, case.get("route", "list"))
     elif "composed" in case and case.get("requested"):
         check_composed_requested(case["files"], kind, tab, layout, case["composed"], r)
